@@ -67,6 +67,16 @@ let existence_ x = match lst x with
   | _ -> failwith "existence"
 let w_matrix m = w_list (w_list w_nat) m
 
+let cand_ x = match lst x with
+  | [i; f; d] -> { c_imp = bigq_ i; c_inf = bigq_ f; c_dc = (match d with A "nan" -> None | v -> Some (bigq_ v)) }
+  | _ -> failwith "cand"
+let w_result = function RNone -> A "none" | RIdx i -> L [A "idx"; w_nat i] | RRaise -> A "raise"
+let w_fam = function FPat -> A "pattern" | FEag -> A "eager" | FLaz -> A "lazy" | FEnum -> A "enum"
+let w_stage = function S0_pattern -> A "0_pattern" | S1_init_all -> A "1_init_all" | S1_init_lazy -> A "1_init_lazy"
+  | S2_init_inf_idx -> A "2_init_inf_idx" | S3_all -> A "3_all" | S4_all_enum -> A "4_all_enum" | S4_all_inf_idx -> A "4_all_inf_idx"
+let w_outcome = function ODefault -> A "default" | OChosen (st, f, p) -> L [A "chosen"; w_stage st; w_fam f; w_nat p]
+  | ORaise0 -> A "raise" | OBad -> A "bad"
+
 let dispatch (cmd : string) (args : sx list) : sx =
   match cmd, args with
   | "valid_idx_rows", [t; p; rows] ->
@@ -142,6 +152,16 @@ let dispatch (cmd : string) (args : sx list) : sx =
         | [n; e; st; c] -> { g_nodes = list_ n_ n; g_edges = list_ n_ e; g_start = list_ n_ st; g_cons = list_ n_ c }
         | _ -> failwith "sgraph" in
       w_bool (same_graph (sg_ a) (sg_ b))
+  | "get_best", [knows; np; by_inf; tbl] ->
+      w_result (get_best (bool_ knows) (opt_ nat_ np) (bool_ by_inf) (list_ cand_ tbl))
+  | "equalize", [tbl] -> w_list (fun c -> w_opt w_bigq c.c_dc) (equalize (list_ cand_ tbl))
+  | "select", [excl; nmat; nmax; pat; eag; laz; enum] ->
+      let e = { e_excl = bool_ excl; e_nmat = opt_ n_ nmat; e_nmax = n_ nmax; e_pat = list_ cand_ pat;
+                e_eag = list_ cand_ eag; e_laz = list_ cand_ laz; e_enum = list_ cand_ enum } in
+      let (o, fams) = select e in
+      L [w_outcome o; w_list w_fam fams]
+  | "key_eq", [s1; p1; s2; p2] ->
+      w_bool (ckey_eqb (cache_key (settings_ s1) (opt_ (list_ existence_) p1)) (cache_key (settings_ s2) (opt_ (list_ existence_) p2)))
   | _ -> Dispatch2.dispatch cmd args
 
 let () =
